@@ -1047,6 +1047,16 @@ def C18(V, tier):
     from common import run_jobs, read_trace, split_trace_files, validate_parallel
     import project
     wd = workdir("C18")
+    # M: sys/Batching.tla (explicit time): bounded delay DEPTH * D under adaptive batching; the variant
+    # whose Start never re-arms its timeout must violate it
+    for cfg in (["Batching_quick"] if tier == "quick" else ["Batching_quick", "Batching_thorough"]):
+        r = tlc_check(f"{SPEC}/sys/Batching.tla", f"{SPEC}/mc/{cfg}.cfg", wd, cfg, workers=6, timeout=3000)
+        if not r["ok"]:
+            raise ToolError(f"model check {cfg}: {r['invariant_violated']} fails on the MODEL")
+        require_coverage(r, ["Feed", "Recv", "Timeout", "Tick"], cfg)
+        V.add_model(r, cfg)
+    r = tlc_check(f"{SPEC}/sys/Batching.tla", f"{SPEC}/mc/Batching_noarm.cfg", wd, "noarm", workers=2, coverage=False)
+    V.coverage["no_rearm_variant_breaks_bounded_delay"] = r["invariant_violated"] == "BoundedDelay"
     rng = random.Random(seed() + 18)
     jobs = latency_jobs(tier, rng)
     results, traces = run_jobs(jobs, wd, nproc=min(len(jobs), 12), timeout=600)
